@@ -90,6 +90,10 @@ pub struct Inner {
     pub kernel_cats: Vec<&'static str>,
     // sites executed by the runtime's timer thread, mapped onto this actor
     pub timer_actor: Option<usize>,
+    /// categories whose points, when hit by a runtime thread that is no actor, belong to a passive actor
+    pub passive: Vec<(&'static str, usize)>,
+    /// a worker that `place` must not choose (the one whose selector serves the socket under test)
+    pub avoid_worker: Option<usize>,
     // handshake with the runtime's timer thread (virtual clock): see `timer_quiet`
     pub tick_gen: u64,
     pub timer_read_gen: u64,
@@ -141,6 +145,11 @@ thread_local! {
     static IS_TIMER: Cell<bool> = const { Cell::new(false) };
 }
 
+/// is the calling OS thread a thread actor?
+pub fn is_actor_thread() -> bool {
+    ACTOR.with(|c| c.get()) != usize::MAX
+}
+
 #[derive(Debug, Clone, PartialEq)]
 pub enum Settled {
     /// at least one actor is at a point or everything finished; `at` lists (actor, point)
@@ -177,6 +186,8 @@ impl Ctrl {
                 sb_new: 0,
                 kernel_cats: vec![],
                 timer_actor: None,
+                passive: vec![],
+                avoid_worker: None,
                 tick_gen: 0,
                 timer_read_gen: 0,
                 timer_done_gen: 0,
@@ -250,6 +261,7 @@ impl Ctrl {
         g.tp_unparked.clear();
         g.sb_new = 0;
         g.timer_actor = None;
+        g.passive.clear();
         g.kernel_cats.clear();
     }
 
@@ -279,6 +291,7 @@ impl Ctrl {
         let mut g = self.lock();
         g.actors[actor].vid = vid;
         g.actors[actor].st = ASt::Running;
+        g.actors[actor].worker = may::verif::worker_id();
         g.by_vid.insert(vid, actor);
         g.co.insert(vid, CoSt::Running);
         g.change += 1;
@@ -326,7 +339,14 @@ impl Ctrl {
         if cat == "timer" {
             return g.timer_actor;
         }
+        if let Some((_, a)) = g.passive.iter().find(|(c, _)| *c == cat) {
+            return Some(*a);
+        }
         None
+    }
+
+    pub fn set_avoid_worker(&self, w: Option<usize>) {
+        self.lock().avoid_worker = w;
     }
 
     // ---- driver side -------------------------------------------------------------------
@@ -382,6 +402,9 @@ impl Ctrl {
         let start = Instant::now();
         let mut g = self.lock();
         loop {
+            if g.abort {
+                return Ok(Settled::Quiet);
+            }
             let n = g.actors.len();
             let mut all = (0..n).all(|i| Self::settled_one(&g, i));
             // a timer that was added (possibly due at once: a zero time-out) and that the timer thread has not
@@ -417,7 +440,8 @@ impl Ctrl {
                     .map(|a| format!("{}:{:?}:{:?}:k{}:h{:?}:w{}:{}", a.name, a.st, g.co.get(&a.vid), a.kactive, a.hosting, a.worker as isize, a.at.as_ref().map_or("", |p| p.site)))
                     .collect();
                 let tail: Vec<String> = g.notes.iter().rev().take(40).map(|n| format!("{}:{}:{:x}", n.0 as isize, n.1, n.2)).collect();
-                return Err(ToolError(format!("watchdog: actors never settled: {desc:?} kthread={:?} timer_host={:?} parked={} notes(newest first)={tail:?}", g.kthread, g.timer_host_vid, g.timer_parked)));
+                let dbg: Vec<String> = crate::run::DBG.lock().unwrap().iter().rev().take(12).cloned().collect();
+                return Err(ToolError(format!("watchdog: actors never settled: {desc:?} kthread={:?} timer_host={:?} parked={} notes(newest first)={tail:?} dbg(newest first)={dbg:?}", g.kthread, g.timer_host_vid, g.timer_parked)));
             }
             let (g2, _) = self
                 .cv
@@ -455,6 +479,11 @@ impl Ctrl {
         let g = self.lock();
         let vid = g.actors[i].vid;
         // (a kernel slot that has resumed the coroutine on its own stack waits for it, not the other way round)
+        // nor is a coroutine held back that somebody else (e.g. a poller running its bottom half) has resumed on
+        // their own stack: that is real concurrency with the kernel side
+        if vid != 0 && g.actors.iter().any(|x| x.kernel_of.is_none() && x.hosting == Some(vid)) {
+            return false;
+        }
         g.actors.iter().enumerate().any(|(j, x)| j != i && x.kernel_of == Some(i) && (x.kactive > 0 || x.st == ASt::AtPoint) && !(vid != 0 && x.hosting == Some(vid)))
     }
 
@@ -869,10 +898,11 @@ impl may::verif::Controller for Ctrl {
         let mut held: Vec<usize> = g
             .actors
             .iter()
-            .filter(|a| a.is_co && matches!(a.st, ASt::AtPoint | ASt::Running) && a.worker != usize::MAX)
+            .filter(|a| ((a.is_co && matches!(a.st, ASt::AtPoint | ASt::Running)) || (a.kernel_of.is_some() && (a.st == ASt::AtPoint || a.kactive > 0))) && a.worker != usize::MAX)
             .map(|a| a.worker)
             .collect();
         held.extend(g.placed.iter().map(|p| p.1));
+        held.extend(g.avoid_worker.iter().copied());
         let mut pick = dflt;
         for k in 0..workers {
             let w = (dflt + k) % workers;
@@ -881,6 +911,7 @@ impl may::verif::Controller for Ctrl {
                 break;
             }
         }
+        crate::run::dbg(format!("place dflt={dflt} held={held:?} -> {pick}"));
         g.placed.push((0, pick));
         if g.placed.len() > 64 {
             g.placed.remove(0);
